@@ -274,6 +274,12 @@ void RelayServer::handle_register(const std::shared_ptr<ClientSession>& session,
         return;
     }
 
+    if (!session->partner.expired()) {
+        // Already claimed by a connector: registering again would offer this session to a second one.
+        queue_text(session, "ERROR busy\n");
+        return;
+    }
+
     remove_registration(session);
     session->peer_id = *peer;
     session->peer_hex = peer_id_to_string(session->peer_id);
